@@ -3,6 +3,7 @@ CONSTANTS
   Sigs = {"TERM", "TSTP"}
   WithExit = FALSE
   MaxH = 100
+  UniformInit = FALSE
 VIEW view
 INVARIANT Consistent
 INVARIANT EmitState
